@@ -810,3 +810,57 @@ Section Oriented.
       eapply Forall_impl; [|exact Hn]. intros s [A _]. exact A.
   Qed.
 End Oriented.
+
+(* ================================================================== GenLayout *)
+Lemma firstn_skipn_split {A} (l : list A) a b :
+  firstn a l ++ firstn b (skipn a l) = firstn (a + b) l.
+Proof.
+  revert l. induction a as [|a IH]; intro l; simpl; [reflexivity|].
+  destruct l as [|x t]; simpl; [rewrite firstn_nil; reflexivity|]. f_equal. apply IH.
+Qed.
+
+Lemma skipn_skipn' {A} (l : list A) a b : skipn b (skipn a l) = skipn (a + b) l.
+Proof.
+  revert l. induction a as [|a IH]; intro l; simpl; [reflexivity|].
+  destruct l as [|x t]; simpl; [apply skipn_nil | apply IH].
+Qed.
+
+Lemma gen_rows_concat {A} (objs : list A) : forall ends t,
+  concat (gen_rows objs t ends) = firstn (fold_left Nat.max ends t - t) (skipn t objs).
+Proof.
+  induction ends as [|e r IH]; intro t; simpl.
+  - rewrite Nat.sub_diag. reflexivity.
+  - rewrite IH. set (M := fold_left Nat.max r (Nat.max t e)).
+    assert (HM : (Nat.max t e <= M)%nat).
+    { unfold M. clear. generalize (Nat.max t e). induction r as [|x r IHr]; intro m; simpl; [lia|].
+      specialize (IHr (Nat.max m x)). lia. }
+    destruct (Nat.le_gt_cases e t) as [Hle|Hgt].
+    + replace (e - t)%nat with 0%nat by lia. replace (Nat.max t e) with t in * by lia. reflexivity.
+    + replace (Nat.max t e) with e in * by lia.
+      replace (skipn e objs) with (skipn (e - t) (skipn t objs)) by (rewrite skipn_skipn'; f_equal; lia).
+      rewrite firstn_skipn_split. f_equal. lia.
+Qed.
+
+(* whatever cut indices the partition search hands to GenLayout (sorted or not, repeated or not), the rows
+   concatenated are exactly the cells in declaration order, and there is one row more than cuts *)
+Lemma gen_rows_length {A} (objs : list A) : forall ends t, length (gen_rows objs t ends) = length ends.
+Proof. induction ends as [|e r IH]; intro t; simpl; [reflexivity | f_equal; apply IH]. Qed.
+
+Lemma fold_max_le (l : list nat) (b : nat) : Forall (fun c => (c <= b)%nat) l -> forall m, (m <= b)%nat ->
+  (fold_left Nat.max l m <= b)%nat.
+Proof. induction 1 as [|c t Hc _ IH]; intros m Hm; simpl; [exact Hm | apply IH; lia]. Qed.
+
+Lemma thm_gen_layout {A} (objs : list A) cuts :
+  Forall (fun c => (c < length objs)%nat) cuts ->
+  concat (gen_layout objs cuts) = objs /\ length (gen_layout objs cuts) = S (length cuts).
+Proof.
+  intro H. unfold gen_layout. split.
+  - rewrite gen_rows_concat. rewrite Nat.sub_0_r. simpl skipn.
+    rewrite fold_left_app. simpl.
+    assert (E : (fold_left Nat.max (map S cuts) 0%nat <= length objs)%nat).
+    { apply fold_max_le; [|lia]. apply Forall_forall. intros x Hx. apply in_map_iff in Hx as (c & <- & Hc).
+      rewrite Forall_forall in H. specialize (H c Hc). lia. }
+    replace (Nat.max (fold_left Nat.max (map S cuts) 0%nat) (length objs)) with (length objs) by lia.
+    apply firstn_all.
+  - rewrite gen_rows_length, app_length, map_length. simpl. lia.
+Qed.
